@@ -24,7 +24,9 @@ Inductive cell :=
 | CNum (isfloat : bool) (scaled : Z)     (* finite number scaled / 2^80 (exact for ints of any size and for floats >= 2^-80 in magnitude); 1 and 1.0 differ only in isfloat *)
 | CNaN (id : N)                          (* a NaN object; id = object identity *)
 | CStr (s : list Z)                      (* code points *)
-| CDate (us : Z).
+| CDate (us : Z)
+| CInf (neg : bool)                      (* float('-inf') / float('inf') *)
+| CList (tuple : bool) (l : list Z).     (* a list / tuple valued cell: only ever a NON-key cell, carried opaquely *)
 
 Definition SCALE : Z := 1208925819614629174706176.     (* 2^80 *)
 Definition cint (n : Z) : cell := CNum false (n * SCALE).
@@ -41,17 +43,19 @@ Fixpoint lcmp (a b : list Z) : Z :=          (* native str < / > *)
 
 (* rank of str(type(x)) after int -> float: "<class 'NoneType'>" < "<class 'datetime.datetime'>" < "<class 'float'>" < "<class 'str'>" *)
 Definition rank (c : cell) : Z :=
-  match c with CNone => 0 | CDate _ => 1 | CNum _ _ => 2 | CNaN _ => 2 | CStr _ => 3 end.
+  match c with CNone => 0 | CDate _ => 1 | CNum _ _ => 2 | CNaN _ => 2 | CInf _ => 2 | CStr _ => 3 | CList _ _ => 4 end.
+(* inside the floats: -inf < every finite number < +inf < NaN (NaN ~ NaN, inf ~ inf of the same sign only) *)
+Definition nclass (c : cell) : Z :=
+  match c with CInf true => 0 | CNum _ _ => 1 | CInf false => 2 | CNaN _ => 3 | _ => 0 end.
 
 Definition ccmp (a b : cell) : Z :=
   if rank a <? rank b then -1 else if rank b <? rank a then 1 else
+  if nclass a <? nclass b then -1 else if nclass b <? nclass a then 1 else
   match a, b with
   | CDate x, CDate y => zcmp x y
   | CNum _ x, CNum _ y => zcmp x y
-  | CNum _ _, CNaN _ => -1            (* NaN -> +inf *)
-  | CNaN _, CNum _ _ => 1
   | CStr s, CStr t => lcmp s t
-  | _, _ => 0                         (* None/None, NaN/NaN *)
+  | _, _ => 0                         (* None/None, NaN/NaN, inf/inf of one sign; list cells are never keys *)
   end.
 
 Fixpoint cmparr (a b : list cell) : Z :=
@@ -75,6 +79,7 @@ Definition py_eq_cell (a b : cell) : bool :=
   | CNaN i, CNaN j => N.eqb i j
   | CStr s, CStr t => lcmp s t =? 0
   | CDate x, CDate y => x =? y
+  | CInf a, CInf b => Bool.eqb a b
   | _, _ => false
   end.
 Fixpoint py_eq_key (a b : list cell) : bool :=
